@@ -146,6 +146,7 @@ type Config struct {
 	TimeoutMs  int
 	Trace      bool
 	InitAllow  func(pkgPath string) bool
+	RealMeta   bool // interpret meta.RegisterStruct and the meta package initialiser (reflection registry)
 	NoCoalesce bool // disable merging of if-chains with a common target (a||b||c, multi-value switch cases)
 }
 
